@@ -197,14 +197,38 @@ def prune_cache(max_bytes=3 * 1024 ** 3):
 
 def regenerate_models():
     """the .v files that are translated from /repo's current source (rewritten only when their content changes)"""
-    for script in ("translate_params.py", "translate_columns.py", "translate_facts.py", "translate_iteration.py"):
+    for script in ("translate_params.py", "translate_columns.py", "translate_facts.py", "translate_iteration.py", "translate_kernel.py"):
         sp = os.path.join(HARNESS, script)
         if os.path.exists(sp):
             run([sys.executable, sp, REPO])
 
 
+class _CoqLock:
+    """checks that run at the same time share coq/ (generated files, make): serialise that part (re-entrant within a process)"""
+    depth = 0; fh = None
+
+    def __enter__(self):
+        import fcntl
+        if _CoqLock.depth == 0:
+            os.makedirs(CACHE, exist_ok=True)
+            _CoqLock.fh = open(os.path.join(CACHE, "coq.lock"), "w")
+            fcntl.flock(_CoqLock.fh, fcntl.LOCK_EX)
+        _CoqLock.depth += 1
+
+    def __exit__(self, *a):
+        import fcntl
+        _CoqLock.depth -= 1
+        if _CoqLock.depth == 0:
+            fcntl.flock(_CoqLock.fh, fcntl.LOCK_UN); _CoqLock.fh.close(); _CoqLock.fh = None
+
+
 def coq_make(targets=(), timeout=1500):
     """(re)build Coq targets (full .vo).  Returns (ok, output)."""
+    with _CoqLock():
+        return _coq_make(targets, timeout)
+
+
+def _coq_make(targets=(), timeout=1500):
     # the Makefile is generated from the files of _CoqProject that exist (a proof file still being written must not
     # block the others)
     regenerate_models()
@@ -262,6 +286,11 @@ def coq_forbidden_scan():
 
 
 def check_property_file(pid, extra_targets=()):
+    with _CoqLock():
+        return _check_property_file(pid, extra_targets)
+
+
+def _check_property_file(pid, extra_targets=()):
     """Rebuild Properties_<pid>.vo from scratch (the file itself is always re-checked by the
     kernel), parse Print Assumptions output.  Returns dict(ok, theorems, axioms, log)."""
     tgt = "Properties_%s.vo" % pid
@@ -291,6 +320,11 @@ def check_property_file(pid, extra_targets=()):
 
 
 def ocaml_model():
+    with _CoqLock():
+        return _ocaml_model()
+
+
+def _ocaml_model():
     """build the extracted model runner ocaml/runner (from coq/Extract.v output)"""
     ok, out = coq_make(["Extract.vo"])
     if not ok:
